@@ -105,6 +105,7 @@ LEVEL = {
     "C14": "model_checking",
     "C16": "model_checking",
     "C15": "model_checking",
+    "C17": "model_checking",
     "C11": "model_checking",
     "C18": "model_checking",
 }
@@ -136,6 +137,11 @@ ASSUMPTIONS = {
     "C15": MIRSYM_ASSUMPTIONS + [
         "text (str/String/Path) is a symbolic sequence of Unicode scalars with UTF-8 byte-length arithmetic; slicing panics exactly when the byte index is not a char boundary",
         "only sys::{trim_prefix,trim_suffix,has,has_prefix,has_suffix} are encoded; parse_paths under C18; the component-level helpers are outside the claim",
+    ],
+    "C17": MIRSYM_ASSUMPTIONS + [
+        "environment stub: env::var(NAME) = uninterpreted functions of the name's characters (set?, value chars); values have a fixed length per job, contain no NUL and - for the obligations - no '$'",
+        "text-level std::path / str / Peekable<Chars> models (validated against real std where applicable); rivia's take_while_p and PeekingTakeWhile::next run from MIR",
+        "syntax the statement does not define (unbalanced braces) carries no obligation",
     ],
     "C18": MIRSYM_ASSUMPTIONS + [
         "environment stub: env::var(const NAME) is a symbolic Option<String> per name; str::split(':') is a symbolic list of bounded length with a symbolic emptiness flag per segment",
